@@ -91,7 +91,9 @@ class Prop(PoolProp):
         # out of order next to a reader; a clash of two stores on one identifier with a pre-sized index
         fin = [["iter"], ["len"], ["contig"]]
         cfgs = [SCfg(0, [[["store", 0, 1]], [["read", 0]], fin]),
-                SCfg(2, [[["store", 1, 1]], [["store", 1, 2]], [["contig"], ["read", 1]]])]
+                SCfg(2, [[["store", 1, 1]], [["store", 1, 2]], [["contig"], ["read", 1]]]),
+                # a session: store, close, store again (the file is re-opened in append mode) next to a reader that closes too
+                SCfg(0, [[["store", 0, 1], ["close"], ["store", 1, 2]], [["read", 0], ["close"], ["read", 1]]])]
         if tier == "thorough":
             cfgs += [SCfg(0, [[["store", 0, 1], ["store", 1, 2]], [["read", 0], ["read", 1]], fin], buffered=True),
                      SCfg(0, [[["store", 1, 1]], [["store", 0, 2]], [["read", 1], ["len"]], fin + [["read", 0]]])]
@@ -148,7 +150,14 @@ class Prop(PoolProp):
             for _ in range(rng.choice([4, 6, 8])):
                 poll.append(["read", rng.choice(gs)])
             scripts.append(poll)
-        if rng.random() < 0.25:
+        if rng.random() < 0.3:
+            # close() between two operations (modelled: Op.close): the next store re-opens the process's file in append mode,
+            # read handles are re-opened on demand
+            for sc in scripts:
+                if sc and rng.random() < 0.7:
+                    for _ in range(rng.choice([1, 1, 2])):
+                        sc.insert(rng.randint(1, len(sc)), ["close"])
+        elif rng.random() < 0.25:
             # context-manager sessions (oracle-only runs): a process leaves its session between two operations and goes on —
             # its file is re-opened in append mode by the next store, its read handles are re-opened on demand
             for sc in scripts:
